@@ -375,4 +375,183 @@ theorem layout_push_inscription (f : Flags) (e : Entry) (i : Nat × Nat) (hf : f
     layout f { e with inscriptions := e.inscriptions ++ [i] } = layout f e ++ encodeInscription i := by
   simp [layout, hf, encodeInscriptions, List.append_assoc]
 
+theorem emptyBuf_eq (f : Flags) : emptyBuf f = .ok ⟨layout f ⟨0, [], [], []⟩, .valid⟩ := by
+  obtain ⟨s, a, i⟩ := f
+  cases s <;> cases a <;> cases i <;>
+    simp [emptyBuf, pushSatRanges, pushValue, pushScriptPubkey, advance, Buf.new, layout, encodeInscriptions]
+
+theorem pushInscription_layout (f : Flags) (e : Entry) (i : Nat × Nat) (hf : f.inscriptions = true) :
+    pushInscription f i ⟨layout f e, .valid⟩ =
+      .ok ⟨layout f { e with inscriptions := e.inscriptions ++ [i] }, .valid⟩ := by
+  rw [layout_push_inscription f e i hf]
+  simp [pushInscription, hf, advance]
+
+/-! ### every buffer the builder accepts -/
+
+set_option linter.unusedSimpArgs false in
+/-- `parse` of sats part ++ script part ++ arbitrary trailing bytes -/
+theorem parse_parts (f : Flags) (e : Entry) (raw : List UInt8)
+    (hv : f.sats = false → e.value < 2 ^ 64) (hr : f.sats = true → e.ranges.length % 11 = 0)
+    (hlen : (satsPart f e ++ (scriptPart f e ++ raw)).length < 2 ^ 64) :
+    parse f (satsPart f e ++ (scriptPart f e ++ raw)) =
+      .ok ⟨if f.sats then .ranges e.ranges else .value e.value,
+           if f.addresses then some e.script else none,
+           if f.inscriptions then some raw else none⟩ := by
+  unfold parse
+  rw [parseSats_layout f e _ hv hr hlen]
+  simp only
+  rw [parseScript_layout f e _ _ hlen]
+  simp only
+  cases hi : f.inscriptions with
+  | false => simp
+  | true =>
+    simp only [if_true]
+    have := slice_tail (satsPart f e ++ scriptPart f e) raw
+    simp only [List.length_append, List.append_assoc] at this
+    simp only [List.length_append]
+    rw [this]
+
+theorem applyOp_valid (f : Flags) (op : Op) (vec : List UInt8) (b : Buf)
+    (h : applyOp f ⟨vec, .valid⟩ op = .ok b) :
+    ∃ raw, b = ⟨vec ++ raw, .valid⟩ ∧ (f.inscriptions = false → raw = []) := by
+  cases op with
+  | value v =>
+    cases hs : f.sats <;> simp [applyOp, pushValue, advance, hs] at h
+  | satRanges r =>
+    cases hs : f.sats <;> simp [applyOp, pushSatRanges, advance, hs] at h
+    split at h <;> simp at h
+  | scriptPubkey s =>
+    cases ha : f.addresses <;> simp [applyOp, pushScriptPubkey, advance, ha] at h
+  | inscriptions r =>
+    cases hf : f.inscriptions <;> simp [applyOp, pushInscriptions, advance, hf] at h
+    exact ⟨r, h.symm, fun hc => by cases hc⟩
+  | inscription s o =>
+    cases hf : f.inscriptions <;> simp [applyOp, pushInscription, advance, hf] at h
+    exact ⟨encodeInscription (s, o), h.symm, fun hc => by cases hc⟩
+
+/-- from the `Valid` state only inscription pushes are accepted, and only with the flag -/
+theorem applyOps_valid (f : Flags) (ops : List Op) (vec : List UInt8) (b : Buf)
+    (h : applyOps f ⟨vec, .valid⟩ ops = .ok b) :
+    ∃ raw, b = ⟨vec ++ raw, .valid⟩ ∧ (f.inscriptions = false → raw = []) := by
+  induction ops generalizing vec with
+  | nil =>
+    simp only [applyOps] at h
+    injection h with h
+    exact ⟨[], by simp [← h], fun _ => rfl⟩
+  | cons op ops ih =>
+    simp only [applyOps] at h
+    cases hop : applyOp f ⟨vec, .valid⟩ op with
+    | err e => rw [hop] at h; cases h
+    | panic s => rw [hop] at h; cases h
+    | ok b' =>
+      rw [hop] at h
+      obtain ⟨raw1, h1, h2⟩ := applyOp_valid f op vec b' hop
+      subst h1
+      obtain ⟨raw2, h3, h4⟩ := ih _ h
+      exact ⟨raw1 ++ raw2, by rw [h3, List.append_assoc], fun hc => by rw [h2 hc, h4 hc]; rfl⟩
+
+
+def afterSats (f : Flags) : State := if f.addresses then .needScriptPubkey else .valid
+
+set_option linter.unusedSimpArgs false in
+theorem applyOp_needSats (f : Flags) (op : Op) (b : Buf)
+    (h : applyOp f Buf.new op = .ok b) :
+    ∃ e : Entry, b = ⟨satsPart f e, afterSats f⟩ ∧ (f.sats = true → e.ranges.length % 11 = 0) ∧
+      (f.sats = false → op = .value e.value) := by
+  cases op with
+  | value v =>
+    cases hs : f.sats <;> simp [applyOp, pushValue, advance, hs, Buf.new] at h
+    refine ⟨⟨v, [], [], []⟩, ?_, ?_, ?_⟩
+    · rw [← h]; cases ha : f.addresses <;> simp [satsPart, hs, afterSats, ha]
+    · intro hc; cases hc
+    · intro _; rfl
+  | satRanges r =>
+    by_cases hl : r.length / 11 * 11 = r.length
+    · cases hs : f.sats <;> simp [applyOp, pushSatRanges, advance, hs, Buf.new, hl] at h
+      refine ⟨⟨0, r, [], []⟩, ?_, ?_, ?_⟩
+      · rw [← h]; cases ha : f.addresses <;> simp [satsPart, hs, afterSats, ha]
+      · intro _; simp only; omega
+      · intro hc; cases hc
+    · cases hs : f.sats <;> simp [applyOp, pushSatRanges, advance, hs, Buf.new, hl] at h
+  | scriptPubkey s =>
+    cases ha : f.addresses <;> simp [applyOp, pushScriptPubkey, advance, ha, Buf.new] at h
+  | inscriptions r =>
+    cases hf : f.inscriptions <;> simp [applyOp, pushInscriptions, advance, hf, Buf.new] at h
+  | inscription s o =>
+    cases hf : f.inscriptions <;> simp [applyOp, pushInscription, advance, hf, Buf.new] at h
+
+theorem applyOp_needScript (f : Flags) (op : Op) (vec : List UInt8) (b : Buf)
+    (h : applyOp f ⟨vec, .needScriptPubkey⟩ op = .ok b) :
+    ∃ s, f.addresses = true ∧ b = ⟨vec ++ (Varint.encode s.length ++ s), .valid⟩ := by
+  cases op with
+  | value v =>
+    cases hs : f.sats <;> simp [applyOp, pushValue, advance, hs] at h
+  | satRanges r =>
+    cases hs : f.sats <;> simp [applyOp, pushSatRanges, advance, hs] at h
+    split at h <;> simp at h
+  | scriptPubkey s =>
+    cases ha : f.addresses <;> simp [applyOp, pushScriptPubkey, advance, ha] at h
+    exact ⟨s, rfl, by rw [← h]⟩
+  | inscriptions r =>
+    cases hf : f.inscriptions <;> simp [applyOp, pushInscriptions, advance, hf] at h
+  | inscription s o =>
+    cases hf : f.inscriptions <;> simp [applyOp, pushInscription, advance, hf] at h
+
+/-- every buffer the builder hands out (any accepted push sequence) has the three-part shape -/
+theorem runOps_shape (f : Flags) (ops : List Op) (bs : List UInt8) (h : runOps f ops = .ok bs) :
+    ∃ (e : Entry) (raw : List UInt8), bs = satsPart f e ++ (scriptPart f e ++ raw) ∧
+      (f.sats = true → e.ranges.length % 11 = 0) ∧ (f.inscriptions = false → raw = []) ∧
+      (f.sats = false → Op.value e.value ∈ ops) := by
+  unfold runOps at h
+  cases ops with
+  | nil => simp [applyOps, asRef, Buf.new] at h
+  | cons op rest =>
+    simp only [applyOps] at h
+    cases hop : applyOp f Buf.new op with
+    | err e => rw [hop] at h; cases h
+    | panic s => rw [hop] at h; cases h
+    | ok b1 =>
+      rw [hop] at h
+      obtain ⟨e, hb1, hr, hval⟩ := applyOp_needSats f op b1 hop
+      subst hb1
+      cases ha : f.addresses with
+      | false =>
+        simp only [afterSats, ha] at h
+        cases hrest : applyOps f ⟨satsPart f e, .valid⟩ rest with
+        | err e => simp [hrest] at h
+        | panic s => simp [hrest] at h
+        | ok b2 =>
+          simp only [Bool.false_eq_true, if_false] at h
+          rw [hrest] at h
+          obtain ⟨raw, h1, h2⟩ := applyOps_valid f rest _ b2 hrest
+          subst h1
+          simp only [asRef, ne_eq, not_true_eq_false, if_false] at h
+          injection h with h
+          refine ⟨e, raw, ?_, hr, h2, fun hs => by rw [hval hs]; simp⟩
+          simp [← h, scriptPart, ha]
+      | true =>
+        simp only [afterSats, ha, if_true] at h
+        cases rest with
+        | nil => simp [applyOps, asRef] at h
+        | cons op2 rest2 =>
+          simp only [applyOps] at h
+          cases hop2 : applyOp f ⟨satsPart f e, .needScriptPubkey⟩ op2 with
+          | err e => rw [hop2] at h; cases h
+          | panic s => rw [hop2] at h; cases h
+          | ok b2 =>
+            simp only [hop2] at h
+            obtain ⟨s, _, hb2⟩ := applyOp_needScript f op2 _ b2 hop2
+            subst hb2
+            cases hrest : applyOps f ⟨satsPart f e ++ (Varint.encode s.length ++ s), .valid⟩ rest2 with
+            | err e => rw [hrest] at h; cases h
+            | panic s => rw [hrest] at h; cases h
+            | ok b3 =>
+              rw [hrest] at h
+              obtain ⟨raw, h1, h2⟩ := applyOps_valid f rest2 _ b3 hrest
+              subst h1
+              simp only [asRef, ne_eq, not_true_eq_false, if_false] at h
+              injection h with h
+              refine ⟨{ e with script := s }, raw, ?_, hr, h2, fun hs => by rw [hval hs]; simp⟩
+              simp [← h, scriptPart, satsPart, ha, List.append_assoc]
+
 end Ord.Utxo
